@@ -153,4 +153,66 @@ theorem slice_mirror (l m : List α) (a b : Nat) (ys : List α) (h : Same .list 
   rw [List.append_assoc, List.append_assoc]
   exact (List.perm_append_comm (l₁ := ys) (l₂ := l.drop b')).append_left _
 
+/-! ### extended slices -/
+
+theorem pickAt_perm (p : Nat → Bool) : ∀ (i : Nat) (l : List α), ((pickAt p i l).1 ++ (pickAt p i l).2).Perm l
+  | _, [] => by simp [pickAt]
+  | i, x :: xs => by
+    unfold pickAt
+    split
+    · simpa using pickAt_perm p (i + 1) xs
+    · simp only
+      exact (List.perm_middle).trans (List.Perm.cons x (pickAt_perm p (i + 1) xs))
+
+theorem replaceAt_perm (p : Nat → Bool) : ∀ (i : Nat) (l ys : List α), ys.length = (pickAt p i l).1.length →
+    (replaceAt p i l ys).Perm ((pickAt p i l).2 ++ ys)
+  | _, [], ys, h => by
+    simp [pickAt] at h
+    simp [replaceAt, pickAt, h]
+  | i, x :: xs, ys, h => by
+    unfold replaceAt
+    unfold pickAt at h ⊢
+    by_cases hp : p i = true
+    · simp only [hp, if_true] at h ⊢
+      cases ys with
+      | nil => simp at h
+      | cons y ys' =>
+        simp only [List.length_cons, Nat.add_right_cancel_iff] at h
+        have ih := replaceAt_perm p (i + 1) xs ys' h
+        exact (List.Perm.cons y ih).trans (List.perm_middle).symm
+    · simp only [hp] at h ⊢
+      have ih := replaceAt_perm p (i + 1) xs ys h
+      simpa using List.Perm.cons x ih
+
+theorem replay_removes (u : Bool) (m xs : List α) :
+    replay u m (xs.map (fun x => (⟨.remove, [x], []⟩ : Notif α))) = xs.foldl (fun c x => c.erase x) m := by
+  induction xs generalizing m with
+  | nil => rfl
+  | cons x xs ih => simp only [List.map_cons, replay, List.foldl_cons] at ih ⊢; simpa [applyNotif] using ih (m.erase x)
+
+theorem delExt_mirror (l m : List α) (a b k : Nat) (h : Same .list l m) :
+    Same .list (delExtStep l a b k).items (replay false m (delExtStep l a b k).notifs) := by
+  have hp : l.Perm m := h
+  simp only [delExtStep]
+  rw [replay_removes]
+  have h1 : ((pickAt (inExt a b k) 0 l).1.reverse ++ (pickAt (inExt a b k) 0 l).2).Perm m :=
+    ((List.reverse_perm _).append_right _).trans ((pickAt_perm _ 0 l).trans hp)
+  exact (perm_foldl_erase _ _ m h1).symm
+
+theorem setExt_mirror (l m : List α) (a b k : Nat) (ys : List α) (h : Same .list l m) :
+    Same .list (setExtStep l a b k ys).items (replay false m (setExtStep l a b k ys).notifs) := by
+  have hp : l.Perm m := h
+  unfold setExtStep
+  split
+  · simp only [SOut.err, replay, List.foldl_nil]; exact h
+  · rename_i hlen
+    have hlen' : ys.length = (pickAt (inExt a b k) 0 l).1.length := by
+      by_cases hq : ys.length = (pickAt (inExt a b k) 0 l).1.length
+      · exact hq
+      · exact absurd hq hlen
+    simp only
+    rw [replay_append, replay_removed, replay_added]
+    have h1 := perm_foldl_erase _ _ m ((pickAt_perm (inExt a b k) 0 l).trans hp)
+    exact (replaceAt_perm _ 0 l ys hlen').trans (h1.symm.append_right ys)
+
 end Py
